@@ -750,22 +750,39 @@ def compare_sys(res: CompResult, runs: list[tuple[list[str], list[str], list[str
     against the real `remote.py` threads."""
     from common import Disagreement, run_driver
 
-    lines = [l for ls, _, _ in runs for l in ls]
+    # load-mode runs: the executable system invariant of `Sys/Inv.lean` is evaluated after every step (`inv?`)
+    STEP = ("main", "deliver", "recv", "crash", "ctl", "init")
+    exp_runs = []
+    for ls, obs, ops in runs:
+        load = any(l.startswith("init load ") for l in ls[:40])
+        l2, o2 = [], []
+        for l, o in zip(ls, obs):
+            l2.append(l)
+            o2.append(o)
+            if load and l.split()[0] in STEP:
+                l2.append("inv?")
+                o2.append("inv=1")
+        exp_runs.append((l2, o2, ops))
+    lines = [l for ls, _, _ in exp_runs for l in ls]
     if not lines:
         return
     model = run_driver("sys", lines)
     pos = 0
-    for ls, obs, ops in runs:
+    for ls, obs, ops in exp_runs:
         m = model[pos: pos + len(ls)]
         pos += len(ls)
-        bad = next((i for i in range(len(ls)) if i < len(obs) and obs[i] != "*" and m[i] != obs[i]), None)
+        bad = next((i for i in range(len(ls)) if i < len(obs) and obs[i] != "*" and m[i] != obs[i]
+                    and not (ls[i] == "inv?" and m[i] == "inv=-")), None)
         if bad is None:
             res.hit("sys-trace-agrees")
+            if any(l == "inv?" for l in ls):
+                res.hit("sys-invariant-holds-at-every-step")
             continue
-        res.hit("sys-trace-disagrees")
-        if len([d for d in res.disagreements if d.component == "sys.system"]) < 6:
-            res.disagreements.append(Disagreement("sys.system", ls[: bad + 1], m[: bad + 1], obs[: bad + 1], bad,
-                                                  note="system replay: " + ops[0][:300]))
+        comp = "sys.inv" if ls[bad] == "inv?" else "sys.system"
+        res.hit("sys-invariant-fails" if comp == "sys.inv" else "sys-trace-disagrees")
+        if len([d for d in res.disagreements if d.component == comp]) < 6:
+            res.disagreements.append(Disagreement(comp, ls[: bad + 1], m[: bad + 1], obs[: bad + 1], bad,
+                                                  note=("the system invariant (Sys/Inv.lean) fails; " if comp == "sys.inv" else "") + "system replay: " + ops[0][:300]))
 
 
 def run(profiles: list[str], n_runs: int, seed: int, modes: list[str] | None = None) -> CompResult:
